@@ -185,7 +185,7 @@ impl Monitor for C12 {
                 }
             }
             // deleverage daily limit (fixed windows between resets)
-            if ix.tag == "withdraw" {
+            if super::is_withdraw(ix.tag) {
                 let acc_key = ix.accounts[1].pubkey;
                 let group_key = ix.accounts[0].pubkey;
                 let in_delev = model::account_of(a, &acc_key)
@@ -216,9 +216,19 @@ impl Monitor for C12 {
                         // dollar value of this withdrawal at the low-biased spot price
                         let bk = ix.accounts[3].pubkey;
                         if let (Some(bank0), Some(bank1)) = (model::bank_of(a, &bk), model::bank_of(b, &bk)) {
-                            let amount = qu(model::vault_amount(a, &bank0.liquidity_vault).saturating_sub(model::vault_amount(b, &bank1.liquidity_vault)));
+                            // plain banks: tokens that left the vault; venue banks (tokens pass
+                            // through the vault): units taken off the position
+                            let amount = if super::is_venue_withdraw(ix.tag) {
+                                let sh = |st: &crate::rt::Store| model::account_of(st, &acc_key)
+                                    .and_then(|x| x.lending_account.balances.iter().find(|p| p.active != 0 && p.bank_pk == bk).map(|p| model::q_w(p.asset_shares)))
+                                    .unwrap_or_else(Q::zero);
+                                let d = sh(a) - sh(b);
+                                if d < Q::zero() { Q::zero() } else { d }
+                            } else {
+                                qu(model::vault_amount(a, &bank0.liquidity_vault).saturating_sub(model::vault_amount(b, &bank1.liquidity_vault)))
+                            };
                             if let Some((low, _, _)) = refm::read_oracle(a, &bank0, s.clock).ok().and_then(|v| refm::biased(&v, &bank0, false).ok()) {
-                                let dollars = (amount * low / model::pow10(bank0.mint_decimals as u32)).floor();
+                                let dollars = (amount * low / model::pow10(refm::balance_decimals(&bank0) as u32)).floor();
                                 let now = s.clock.unix_timestamp;
                                 entry.1.push((now, dollars));
                                 self.cov.probe("deleverage_withdraw_counted");
